@@ -333,7 +333,35 @@ def add_axiom(E, label, expr, vars):
 
 # =================================================================================================
 # constructors of record classes
+def _handwritten_init(cls):
+    init = cls.__dict__.get("__init__")
+    if init is None:
+        for k in cls.__mro__[1:]:
+            if "__init__" in k.__dict__:
+                init = k.__dict__["__init__"]
+                cls = k
+                break
+    if init is None or not inspect.isfunction(init):
+        return None
+    if not (init.__module__ or "").startswith(("codemodder", "core_codemods")):
+        return None
+    if init.__code__.co_filename.startswith("<"):
+        return None          # dataclass-generated
+    return init, cls
+
+
 def construct(E, rec, args, kw, st, node):
+    hw = _handwritten_init(rec.pyclass) if (rec.pyclass is not None and rec.kind == "ref") else None
+    if hw is not None:
+        init, owner = hw
+        obj = E.new_obj(st, rec.qualname, {})
+        qn = f"{owner.__module__}.{owner.__qualname__}.__init__"
+        c = E.reg.contracts.get(qn)
+        gen = apply_contract(E, c, init, [obj] + list(args), kw, st, node) if (c is not None and not c.inline) \
+            else call_repo(E, init, qn, [obj] + list(args), kw, st, (), node, owner=owner)
+        for s2, _ in gen:
+            yield s2, obj
+        return
     fields = E.U.all_fields(rec.qualname)
     names = list(fields)
     vals = {}
